@@ -371,6 +371,17 @@ class Interp:
 
     def bv_binop(self, op, a, b):
         if op in ('Lt', 'Le', 'Gt', 'Ge', 'Eq', 'Ne'):
+            def desc(v):
+                if v[0] == 'int' and v[1] is not None:
+                    return ('const', v[1])
+                if v[0] == 'bv':
+                    names = {x[0] for x in v[1] if isinstance(x, tuple)}
+                    if not names and all(x in (0, 1) for x in v[1]):
+                        return ('const', sum(bit << i for i, bit in enumerate(v[1])))
+                    if len(names) == 1 and not any(x == 1 for x in v[1]):
+                        return ('field', next(iter(names)))
+                return ('other',)
+            self.trace.append(('bv-cmp', op, desc(a), desc(b)))      # a range check on a field: which field, against which constant
             return ('bool', None)
         if op in ('Shl', 'ShlUnchecked', 'Shr', 'ShrUnchecked'):
             if a[0] != 'bv' or b[0] != 'int' or b[1] is None:
@@ -1200,6 +1211,61 @@ class Interp:
                 return A[0]
             if seg in ('size_hint',):
                 return ('tuple', [Cell(('int', None)), Cell(mk_option(None))])
+            if seg in ('take', 'skip', 'step_by', 'nth'):
+                nv = self.deref_all(A[1])
+                if nv[0] != 'int' or nv[1] is None:
+                    raise Unmodelled('%s by an unknown count' % seg)
+                n_ = nv[1]
+                if seg == 'take':
+                    out_ = []
+                    while len(out_) < n_:
+                        x = self.iter_next(io, depth)
+                        if x is None:
+                            break
+                        out_.append(x)
+                    return ('iter', IterObj(out_))
+                if seg in ('skip', 'nth'):
+                    for _ in range(n_):
+                        if self.iter_next(io, depth) is None:
+                            break
+                    if seg == 'nth':
+                        x = self.iter_next(io, depth)
+                        return mk_option(x) if x is not None else mk_option(None)
+                    return A[0] if A[0][0] == 'iter' else ('iter', io)
+                xs = self.drain(io, depth)
+                return ('iter', IterObj(xs[::max(1, n_)]))
+            if seg in ('take_while', 'skip_while'):
+                xs = self.drain(io, depth)
+                i_ = 0
+                while i_ < len(xs) and self.truthy(self.call_closure(A[1], [('ref', Cell(xs[i_]))], depth)):
+                    i_ += 1
+                return ('iter', IterObj(xs[:i_] if seg == 'take_while' else xs[i_:]))
+            if seg == 'last':
+                xs = self.drain(io, depth)
+                return mk_option(xs[-1]) if xs else mk_option(None)
+            if seg in ('find', 'position', 'find_map'):
+                i_ = 0
+                while True:
+                    x = self.iter_next(io, depth)
+                    if x is None:
+                        return mk_option(None)
+                    if seg == 'find_map':
+                        r = self.deref_all(self.call_closure(A[1], [x], depth))
+                        if r[2] == 1:
+                            return r
+                    elif self.truthy(self.call_closure(A[1], [('ref', Cell(x))] if seg == 'find' else [x], depth)):
+                        return mk_option(x) if seg == 'find' else mk_option(('int', i_))
+                    i_ += 1
+            if seg in ('flatten', 'flat_map'):
+                out_ = []
+                for x in self.drain(io, depth):
+                    y = self.call_closure(A[1], [x], depth) if seg == 'flat_map' else x
+                    out_.extend(self.drain(self.as_iter(y), depth))
+                return ('iter', IterObj(out_))
+            if seg == 'zip':
+                a_ = self.drain(io, depth)
+                b_ = self.drain(self.as_iter(A[1]), depth)
+                return ('iter', IterObj([('tuple', [Cell(x), Cell(y)]) for x, y in zip(a_, b_)]))
             raise Unmodelled('%s is not modelled' % name)
         if name == 'core::iter::traits::collect::FromIterator::from_iter':
             return self.collect(self.as_iter(A[0]), t_hint=None, depth=depth)
@@ -1226,6 +1292,20 @@ class Interp:
             if seg == 'from_iter':
                 return self.collect(self.as_iter(A[0]), None, depth)
             v = self.deref_all(A[0])
+            if v is not None and v[0] == 'vec' and seg in ('from_vec', 'into_vec', 'into_boxed_slice', 'into_inner'):
+                return v
+            if v is not None and v[0] == 'vec' and seg == 'to_vec':
+                return ('vec', list(v[1]))
+            if v is not None and v[0] == 'vec' and seg in ('chunks', 'chunks_exact') and len(A) == 2:
+                nv = self.deref_all(A[1])
+                if nv[0] != 'int' or not nv[1]:
+                    raise Unmodelled('chunks of an unknown size')
+                n_ = nv[1]
+                xs_ = v[1]
+                parts = [('ref', Cell(('vec', xs_[i:i + n_]))) for i in range(0, len(xs_), n_)]
+                if seg == 'chunks_exact':
+                    parts = [p_ for p_ in parts if len(p_[1].v[1]) == n_]
+                return ('iter', IterObj(parts))
             if v[0] == 'arr':
                 if seg in ('iter', 'iter_mut'):
                     return ('iter', IterObj([('ref', c) for c in v[1]]))
@@ -1296,19 +1376,30 @@ class Interp:
                     if a[0] == 'ts' and b[0] == 'ts':
                         return {'<': -1, '=': 0, '>': 1}[self.order.cmp(a[1], b[1])]
                     raise Unmodelled('binary search over %s keys' % a[0])
-                for i, x in enumerate(xs):
+                def probe(i):
+                    x = xs[i]
                     if seg == 'binary_search':
-                        c = kcmp(x, A[1])
-                    elif seg == 'binary_search_by_key':
-                        c = kcmp(self.call_closure(A[2], [('ref', Cell(x))], depth), A[1])
-                    else:
-                        o = self.deref_all(self.call_closure(A[1], [('ref', Cell(x))], depth))
-                        c = o[2] - 1
-                    if c == 0:
-                        return ('adt', 'core::result::Result', 0, [Cell(('int', i))])
-                    if c > 0:
-                        return ('adt', 'core::result::Result', 1, [Cell(('int', i))])
-                return ('adt', 'core::result::Result', 1, [Cell(('int', len(xs)))])
+                        return kcmp(x, A[1])
+                    if seg == 'binary_search_by_key':
+                        return kcmp(self.call_closure(A[2], [('ref', Cell(x))], depth), A[1])
+                    o = self.deref_all(self.call_closure(A[1], [('ref', Cell(x))], depth))
+                    return o[2] - 1
+                # the algorithm itself (core::slice::binary_search_by), NOT "is the element there": on a sequence that is not sorted
+                # a binary search misses elements, and that is exactly what a caller relying on it gets
+                size = len(xs)
+                if size == 0:
+                    return ('adt', 'core::result::Result', 1, [Cell(('int', 0))])
+                base = 0
+                while size > 1:
+                    half = size // 2
+                    mid = base + half
+                    if probe(mid) <= 0:
+                        base = mid
+                    size -= half
+                c = probe(base)
+                if c == 0:
+                    return ('adt', 'core::result::Result', 0, [Cell(('int', base))])
+                return ('adt', 'core::result::Result', 1, [Cell(('int', base + (1 if c < 0 else 0)))])
             if seg in ('remove', 'swap_remove', 'insert', 'get', 'get_mut', 'index', 'index_mut', 'get_unchecked', 'get_unchecked_mut'):
                 iv = self.deref_all(A[1])
                 if iv[0] != 'int' or iv[1] is None:
